@@ -183,7 +183,7 @@ fn run_machine<T: Mach>(case: &mut Case) -> Result<(), String> {
     }
     let x: Vec<i64> = (0..cols).map(|j| case.src.small_int(9) + j as i64 % 3).collect();
     let y: Vec<i64> = (0..rows).map(|i| case.src.small_int(9) - i as i64 % 2).collect();
-    let entries: Vec<((usize, usize), i64)> = model.iter().map(|(k, v)| (*k, *v)).collect();
+    let mut entries: Vec<((usize, usize), i64)> = model.iter().map(|(k, v)| (*k, *v)).collect();
     let n = entries.len();
     let perm = case.src.permutation(n);
     let mode = case.src.below(4);
@@ -213,6 +213,17 @@ fn run_machine<T: Mach>(case: &mut Case) -> Result<(), String> {
             m
         }
     };
+    // overwrite up to three stored entries through insert() (one of them with the value it already holds)
+    if n > 0 {
+        for t in 0..case.src.usize_below(4) {
+            let e = case.src.usize_below(n);
+            let nv = if t == 0 { entries[e].1 } else { case.src.small_int(9) };
+            sp.insert(entries[e].0 .0, entries[e].0 .1, T::from_i(nv));
+            entries[e].1 = nv;
+            model.insert(entries[e].0, nv);
+        }
+    }
+    let entries = entries;
     let maxcol = (0..cols).map(|c| entries.iter().filter(|e| e.0 .1 == c).count()).max().unwrap_or(0);
     case.class(format!("{} built by {}", T::NAME, ["from_triplets", "from_vecs", "inserts only", "triplets then inserts"][mode as usize]));
     case.class(format!("{} fullest column holds {}", T::NAME, if maxcol >= 9 { ">= 9 entries" } else if maxcol >= 5 { "5..8 entries" } else { "<= 4 entries" }));
